@@ -800,7 +800,10 @@ class Reader(ABC):
         if self.tle_lines is not None:
             return self.tle_lines
         self.get_times()
-        tle_data = self.read_tle_file(self.get_tle_file())
+        try:
+            tle_data = self.read_tle_file(self.get_tle_file())
+        except FileNotFoundError as err:
+            raise NoTLEData("Can't find tle file for %s: %s" % (self.spacecraft_name, err))
         sdate = self._times_as_np_datetime64[0]
         dates = self.tle2datetime64(
             np.array([float(line[18:32]) for line in tle_data[::2]]))
